@@ -39,7 +39,9 @@ EXTENDS Integers, Sequences, FiniteSets, TLC, SequencesExt, FiniteSetsExt
 Kn == INSTANCE OVMKernel
 
 (* ------------------------------ universe ------------------------------- *)
-KindSeq  == <<"V", "HE", "M">>
+(* all seven entity kinds; the first three keep the indices the scripts of  *)
+(* round 1 used (1 V, 2 HE, 3 M), then 4 E, 5 F, 6 HF, 7 C                  *)
+KindSeq  == <<"V", "HE", "M", "E", "F", "HF", "C">>
 TypeSeq  == <<"int", "bool">>
 NameSeq  == <<"a", "b">>           \* the non-empty names of the universe
 MTypeSeq == <<"poly", "tet", "hex", "tpoly", "ttet", "thex">>
@@ -51,14 +53,14 @@ Geometric(ty) == ty \in {"poly", "tet", "hex"}
 (* which assignments compile: the GeometryKernel template operator= between any two geometric   *)
 (* types, the defaulted operator= between two meshes of the same topology-only type             *)
 Assignable(dty, sty) == (Geometric(dty) /\ Geometric(sty)) \/ (~Geometric(dty) /\ dty = sty)
-Kinds3   == {"V", "HE", "M"}
+Kinds3   == {"V", "HE", "M", "E", "F", "HF", "C"}   \* (historic name) all entity kinds
 PosName  == "ovm:position"
 PosType  == "vec"
 
 IdxOf(q, x) == CHOOSE i \in DOMAIN q : q[i] = x
 KindIdx(k)  == IdxOf(KindSeq, k)
 TypeIdx(t)  == IdxOf(TypeSeq, t)
-NKeys       == 12
+NKeys       == 28
 KeyIdx(k, t, s) == (KindIdx(k) - 1) * 4 + (TypeIdx(t) - 1) * 2 + IdxOf(NameSeq, s)
 KeyOf(x)    == LET y == x - 1 IN [k |-> KindSeq[(y \div 4) + 1], t |-> TypeSeq[((y % 4) \div 2) + 1], s |-> NameSeq[(y % 2) + 1]]
 
@@ -97,7 +99,16 @@ FreeIds(w)  == DOMAIN w.sto \ LiveIds(w)
 NewId(w)    == Min(FreeIds(w) \ w.busy)
 Bound(w)    == {h \in DOMAIN w.slot : w.slot[h] # 0}
 
-NK(kern, k) == CASE k = "V" -> kern.nv [] k = "HE" -> 2 * Len(kern.edges) [] k = "M" -> 1
+(* THE SIZE RELATION, per entity kind: how many elements a property of kind *)
+(* k has on a mesh with kernel state kern (one per entity slot, deleted     *)
+(* slots included; two half-entities per edge / face; exactly one for Mesh) *)
+NK(kern, k) == CASE k = "V"  -> kern.nv
+                 [] k = "E"  -> Len(kern.edges)
+                 [] k = "HE" -> 2 * Len(kern.edges)
+                 [] k = "F"  -> Len(kern.faces)
+                 [] k = "HF" -> 2 * Len(kern.faces)
+                 [] k = "C"  -> Len(kern.cells)
+                 [] k = "M"  -> 1
 N(w, m, k)  == NK(w.mesh[m].kern, k)
 
 TrackedK(w, m, k) == {i \in w.mesh[m].trk : w.sto[i].kind = k}
@@ -197,7 +208,7 @@ ClearPropsK(w, m, k) ==
                        IF i \in ts THEN [w.sto[i] EXCEPT !.shared = FALSE, !.pers = IF i \in ps THEN FALSE ELSE @]
                        ELSE w.sto[i]],
             !.mesh[m].pers = @ \ ps]
-ClearAllK(w, m) == ClearPropsK(ClearPropsK(ClearPropsK(w, m, "V"), m, "HE"), m, "M")
+ClearAllK(w, m) == FoldLeft(LAMBDA x, k : ClearPropsK(x, m, k), w, KindSeq)
 ClearProps(w, m, k)  == SetRet(Collect(ClearPropsK(w, m, k)), "ok")
 ClearAllProps(w, m)  == SetRet(Collect(ClearAllK(w, m)), "ok")
 
@@ -224,7 +235,11 @@ KernelCall(w, m, kc) ==
                IF i \in w.mesh[m].trk
                THEN LET x == w.sto[i] IN
                     CASE x.kind = "V"  -> [x EXCEPT !.vals = Remap(x.vals, k1.pV, x.def)]
+                      [] x.kind = "E"  -> [x EXCEPT !.vals = Remap(x.vals, k1.pE, x.def)]
                       [] x.kind = "HE" -> [x EXCEPT !.vals = Remap(x.vals, k1.pHE, x.def)]
+                      [] x.kind = "F"  -> [x EXCEPT !.vals = Remap(x.vals, k1.pF, x.def)]
+                      [] x.kind = "HF" -> [x EXCEPT !.vals = Remap(x.vals, k1.pHF, x.def)]
+                      [] x.kind = "C"  -> [x EXCEPT !.vals = Remap(x.vals, k1.pC, x.def)]
                       [] OTHER -> x
                ELSE w.sto[i]],
             !.ret = "ok",
@@ -335,7 +350,7 @@ Apply(w0, c) ==
     [] c.op = "mesh_assign"       -> MeshAssign(w, c.a, c.l[1])
     [] c.op = "mesh_destroy"      -> MeshDestroy(w, c.a)
     [] c.op = "teardown"          -> Teardown(w, c.f)
-    [] c.op = "stamp"             -> w
+    [] c.op \in {"stamp", "touch"} -> w      \* touch: every element read and written back through the handle
     [] c.op \in KernelOps         -> KernelCall(w, c.a, KCall(c))
 
 (* ======================================================================= *)
@@ -431,6 +446,19 @@ HandleViews(x) ==
 (* every tracked storage has exactly one element per entity slot            *)
 TrackedSized(x) ==
   \A m \in AliveC(x) : \A i \in x.mesh[m].trk : Len(x.sto[i].vals) = x.mesh[m].n[x.sto[i].kind]
+(* the entity counts the API reports are the counts of the definitions, per  *)
+(* kind: n_halfedges = 2 n_edges, n_halffaces = 2 n_faces, Mesh = 1          *)
+CountsPerKind(x) ==
+  \A m \in AliveC(x) : LET k == x.mesh[m].kern  n == x.mesh[m].n IN
+     /\ n["V"] = k.nv /\ n["E"] = Len(k.edges) /\ n["HE"] = 2 * Len(k.edges)
+     /\ n["F"] = Len(k.faces) /\ n["HF"] = 2 * Len(k.faces) /\ n["C"] = Len(k.cells) /\ n["M"] = 1
+(* ... and every tracked storage has that many elements, kind by kind, also  *)
+(* as seen through size() of every handle that is bound to it                *)
+SizedPerKind(x) ==
+  /\ \A m \in AliveC(x) : \A i \in x.mesh[m].trk : Len(x.sto[i].vals) = NK(x.mesh[m].kern, x.sto[i].kind)
+  /\ \A h \in DOMAIN x.slot :
+        (x.slot[h] # 0 /\ x.sto[x.slot[h]].trk # 0) =>
+           x.sl[h].size = NK(x.mesh[x.sto[x.slot[h]].trk].kern, x.sto[x.slot[h]].kind)
 PositionsAreTheProperty(x) ==
   \A m \in AliveC(x) : IF x.mesh[m].posh = 0 THEN x.mesh[m].posv = <<>>
                         ELSE x.mesh[m].posv = x.sto[x.mesh[m].posh].vals
@@ -447,6 +475,8 @@ InvC14(x) ==
            <<"FindConsistent", FindConsistent(x)>>,
            <<"HandleViews", HandleViews(x)>>,
            <<"TrackedSized", TrackedSized(x)>>,
+           <<"CountsPerKind", CountsPerKind(x)>>,
+           <<"SizedPerKind", SizedPerKind(x)>>,
            <<"PositionsAreTheProperty", PositionsAreTheProperty(x)>> >>)
 
 InvC13(x) ==
@@ -454,6 +484,8 @@ InvC13(x) ==
            <<"BackPointers", BackPointers(x)>>,
            <<"HandleViews", HandleViews(x)>>,
            <<"TrackedSized", TrackedSized(x)>>,
+           <<"CountsPerKind", CountsPerKind(x)>>,
+           <<"SizedPerKind", SizedPerKind(x)>>,
            <<"PositionsAreTheProperty", PositionsAreTheProperty(x)>> >>)
 
 (* ---- step relations: frame ------------------------------------------- *)
@@ -548,7 +580,7 @@ RelClear(p, q, m, ks, clearedProps, resized, ret) ==
   /\ Frame(p, q, {m}, {}, ts, {})
   /\ q.mesh[m].alive /\ q.mesh[m].ty = p.mesh[m].ty /\ q.mesh[m].posh = p.mesh[m].posh
   /\ q.mesh[m].pers = p.mesh[m].pers \ ps
-  /\ IF resized THEN \A k \in {"V", "HE"} : q.mesh[m].n[k] = 0
+  /\ IF resized THEN \A k \in Kinds3 \ {"M"} : q.mesh[m].n[k] = 0
      ELSE KPart(q, m) = KPart(p, m)
   /\ \A i \in ts : /\ i \in DOMAIN q.sto
                    /\ \/ i \in ps /\ ~q.sto[i].live
@@ -580,7 +612,7 @@ RelMeshNew(p, q, m, ty, ret) ==
   LET j == q.mesh[m].posh IN
   /\ ret = "ok" /\ Frame(p, q, {m}, {}, {}, {})
   /\ q.mesh[m].alive /\ q.mesh[m].ty = ty /\ q.mesh[m].pers = {}
-  /\ \A k \in {"V", "HE"} : q.mesh[m].n[k] = 0
+  /\ \A k \in Kinds3 \ {"M"} : q.mesh[m].n[k] = 0
   /\ IF Geometric(ty)
      THEN /\ j \notin LiveC(p) /\ NewLive(p, q) = {j}
           /\ q.sto[j] = [live |-> TRUE, kind |-> "V", type |-> PosType, name |-> PosName, shared |-> TRUE, pers |-> FALSE,
@@ -637,6 +669,7 @@ RelC14(p, q, c, ret) ==
     [] c.op \in {"mesh_copy", "mesh_assign"} -> RelCopyFrameOnly(p, q, c.a, c.l[1], ret)
     [] c.op = "teardown"          -> RelTeardown(p, q, ret)
     [] c.op \in KernelOps         -> ret = "ok" /\ RelKernel(p, q, c.a, ret)
+    [] c.op = "touch"             -> ret = "ok" /\ AllSame(p, q)
     [] c.op = "stamp"             -> TRUE
 
 (* ---- C13: copy relation and independence ------------------------------ *)
@@ -674,7 +707,9 @@ CopyRelNamed(p, q, dst, src, isAssign) ==
         \A h \in oldH : LET i == p.slot[h] IN
            /\ q.slot[h] = i /\ i \in DOMAIN q.sto /\ q.sto[i].live
            /\ q.sto[i].trk = dst
-           /\ Len(q.sto[i].vals) = q.mesh[dst].n[q.sto[i].kind]>>,
+           /\ Len(q.sto[i].vals) = NK(p.mesh[src].kern, q.sto[i].kind)      \* the SOURCE's count of that kind
+           /\ Len(q.sto[i].vals) = q.mesh[dst].n[q.sto[i].kind]           \* = what the target now reports
+           /\ q.sl[h].size = Len(q.sto[i].vals) /\ q.sl[h].ok>>,
      <<"OldHandlesNotFindable",
         \A h \in oldH : LET i == p.slot[h] IN
            /\ ~q.sto[i].shared /\ ~q.sto[i].pers /\ i \notin dp
@@ -691,7 +726,7 @@ RelC13(p, q, c, ret) ==
 (* storage it tracks - exactly as it was                                    *)
 Targets(p, c) ==
   CASE c.op \in {"h_copy", "h_move"} -> {MeshOf(p, p.slot[c.l[1]])}
-    [] c.op \in {"h_drop", "write", "set_name"} -> {MeshOf(p, p.slot[c.b])}
+    [] c.op \in {"h_drop", "write", "set_name", "touch"} -> {MeshOf(p, p.slot[c.b])}
     [] c.op \in CreateOps \cup {"pos_handle"} -> {c.a, MeshOf(p, p.slot[c.b])}
     [] c.op = "teardown"  -> DOMAIN p.mesh
     [] OTHER -> {c.a}
